@@ -149,10 +149,26 @@ def d3(ctx, prog):
         if isinstance(n, ast.If) and isinstance(n.test, ast.Compare) and len(n.test.ops) == 1 and isinstance(n.test.ops[0], (ast.Is, ast.Eq)) \
                 and isinstance(n.test.comparators[0], ast.Attribute) and norm(n.test.comparators[0].value) == 'Steps':
             handled.append(n.test.comparators[0].attr)
+    for tname, tab in step_tables(ci, disp).items():          # table form: {Steps.X: handler, ...} indexed by the operation
+        handled.extend(k for k in tab)
     missing = sorted(set(steps) - set(handled))
     dup = sorted({h for h in handled if handled.count(h) > 1})
     ctx.check(not missing and not dup, 'C06-D3', f'{disp.key}::exhaustive', f'dispatcher branches: missing {missing}, duplicated {dup}', f'one branch for each of the {len(steps)} Steps members', disp.where())
     return steps, ci, tpl, disp
+
+
+def step_tables(ci, disp):
+    """class-level tables {Steps.X: handler name} that the dispatcher indexes with its operation parameter: name -> {member: handler}"""
+    out = {}
+    op = disp.params[2] if len(disp.params) > 2 else None
+    for n in ast.walk(disp.node):
+        if isinstance(n, ast.Subscript) and isinstance(n.value, ast.Attribute) and norm(n.value.value) in ('self', 'type(self)', 'self.__class__', ci.name) and norm(n.slice) == op:
+            v = ci.class_assigns.get(n.value.attr)
+            if isinstance(v, ast.Dict) and v.keys and all(isinstance(k, ast.Attribute) and norm(k.value) == 'Steps' and isinstance(x, ast.Name) for k, x in zip(v.keys, v.values)):
+                keys = [k.attr for k in v.keys]
+                if len(set(keys)) == len(keys):
+                    out[n.value.attr] = {k.attr: x.id for k, x in zip(v.keys, v.values)}
+    return out
 
 
 # ---------------------------------------------------------------------------------------------- D3': term evaluation
@@ -233,6 +249,10 @@ class Sym:
                 return self.op == c.attr
             if isinstance(c, ast.Constant) and c.value is None:
                 return self.op is None
+        if isinstance(t, ast.UnaryOp) and isinstance(t.op, ast.Not):
+            return not self.cond(t.operand)
+        if isinstance(t, ast.Call) and norm(t.func) == 'isinstance' and len(t.args) == 2 and norm(t.args[0]) == self.disp.params[2] and norm(t.args[1]) == 'Steps':
+            return self.op is not None          # template entries are None or Steps members (position clause of C06-D3)
         raise AnalysisError(f'dispatcher condition `{norm(t)[:50]}` is not a test of the operation')
 
     @staticmethod
@@ -245,11 +265,66 @@ class Sym:
                 return 'R'
         raise AnalysisError(f'slice `{norm(sl)}` is not one of the two halves of the 8-byte state')
 
+    def handler(self, e):
+        """the step handler a table lookup `self.TABLE[operation]` selects for the current operation, else None"""
+        if isinstance(e, ast.Subscript) and isinstance(e.value, ast.Attribute) and norm(e.slice) == self.disp.params[2]:
+            tabs = step_tables(self.disp.cls, self.disp)
+            tab = tabs.get(e.value.attr)
+            if tab is not None:
+                if self.op not in tab:
+                    raise AnalysisError(f'step table {e.value.attr} has no entry for {self.op}')
+                g = self.disp.cls.methods.get(tab[self.op])
+                if g is None:
+                    raise AnalysisError(f'step handler {tab[self.op]} not found')
+                return ('fn', g)
+        return None
+
+    def call_handler(self, g, e):
+        args = list(e.args)
+        if args and norm(args[0]) == 'self':
+            args = args[1:]
+        ps = [p for p in g.params if p != 'self']
+        if len(args) != len(ps) or e.keywords:
+            raise AnalysisError(f'step handler {g.name} called with an unexpected argument list')
+        vals = []
+        for a in args:
+            try:
+                vals.append(self.ev(a))
+            except AnalysisError:
+                vals.append(('unread', norm(a)))
+        saved, saved_k = self.env, getattr(self, 'kmap', {})
+        # index expressions of the round keys are named after the caller's variables: keep that naming through the call
+        self.kmap = dict(saved_k)
+        for p, a in zip(ps, args):
+            if isinstance(a, ast.Name) and a.id != p:
+                self.kmap[p] = saved_k.get(a.id, a.id)
+        self.env = dict(zip(ps, vals))
+        try:
+            r = self.block(g.node.body)
+        finally:
+            self.env, self.kmap = saved, saved_k
+        if r is None:
+            raise AnalysisError(f'step handler {g.name} does not return')
+        return r
+
     def ev(self, e):
         if isinstance(e, ast.Name):
             if e.id not in self.env:
                 raise AnalysisError(f'dispatcher reads unknown `{e.id}`')
+            if self.env[e.id][0] == 'unread':
+                raise AnalysisError(f'dispatcher reads `{self.env[e.id][1]}`, which is not modelled')
             return self.env[e.id]
+        h = self.handler(e)
+        if h is not None:
+            return h
+        if isinstance(e, ast.Call):
+            fnv = None
+            if isinstance(e.func, ast.Name) and e.func.id in self.env and self.env[e.func.id][0] == 'fn':
+                fnv = self.env[e.func.id]
+            elif isinstance(e.func, ast.Subscript):
+                fnv = self.handler(e.func)
+            if fnv is not None:
+                return self.call_handler(fnv[1], e)
         if isinstance(e, ast.Attribute) and norm(e.value) == 'self':
             if e.attr not in self.attrs:
                 raise AnalysisError(f'dispatcher reads self.{e.attr} before it is set on this step sequence')
@@ -745,8 +820,42 @@ def private_calls_only(prog, f):
             if (isinstance(fn, ast.Name) and fn.id == f.name) or (isinstance(fn, ast.Attribute) and fn.attr == f.name and norm(fn.value) in ('self', 'cls', 'super()')):
                 calls += 1
                 called.add(id(fn))
+    # a reference from a private class-level handler table that is itself only indexed and called (`self._T[k](...)`, or
+    # `h = self._T[k]` with h only called): the table call sites are the call sites (sa.alias.table_callees judges their arguments)
+    tabled = set()
+    if f.cls is not None:
+        for tname, v in f.cls.class_assigns.items():
+            if tname.startswith('_') and isinstance(v, ast.Dict) and any(isinstance(x, ast.Name) and x.id == f.name for x in v.values) and all(isinstance(x, ast.Name) for x in v.values):
+                uses = [n for n in ast.walk(f.mod.tree) if isinstance(n, ast.Attribute) and n.attr == tname and isinstance(n.ctx, ast.Load)]
+                pm = astutil.parents(f.mod.tree)
+                sites = 0
+                ok = bool(uses)
+                for u in uses:
+                    sub = pm.get(u)
+                    if not (isinstance(sub, ast.Subscript) and sub.value is u):
+                        ok = False
+                        break
+                    par = pm.get(sub)
+                    if isinstance(par, ast.Call) and par.func is sub:
+                        sites += 1
+                    elif isinstance(par, ast.Assign) and par.value is sub and len(par.targets) == 1 and isinstance(par.targets[0], ast.Name):
+                        h = par.targets[0].id
+                        owner = par
+                        while owner is not None and not isinstance(owner, (ast.FunctionDef, ast.AsyncFunctionDef)):
+                            owner = pm.get(owner)
+                        hrefs = [n for n in ast.walk(owner) if isinstance(n, ast.Name) and n.id == h and isinstance(n.ctx, ast.Load)] if owner is not None else []
+                        if not hrefs or not all(isinstance(pm.get(r), ast.Call) and pm.get(r).func is r for r in hrefs):
+                            ok = False
+                            break
+                        sites += len(hrefs)
+                    else:
+                        ok = False
+                        break
+                if ok and not any(isinstance(n, ast.Name) and n.id == tname and isinstance(n.ctx, ast.Load) for n in ast.walk(f.mod.tree)):
+                    tabled |= {id(x) for x in v.values if isinstance(x, ast.Name) and x.id == f.name}
+                    calls += sites
     for n in ast.walk(f.mod.tree):
-        if id(n) in called:
+        if id(n) in called or id(n) in tabled:
             continue
         if (isinstance(n, ast.Name) and n.id == f.name and isinstance(n.ctx, ast.Load)) or (isinstance(n, ast.Attribute) and n.attr == f.name and isinstance(n.ctx, ast.Load)):
             refs += 1
